@@ -305,6 +305,12 @@ func registerSigModel(ex *Explorer) {
 		if w, ok := data.Ext.(*wsVariant); ok {
 			data = w.of // whitespace does not change what is decoded
 		}
+		if _, ok := data.Ext.(*trailingVariant); ok {
+			return in.newError("*fat2.TransactionBatch: invalid character after top-level value")
+		}
+		if r, ok := data.Ext.(*rawJSON); ok && r.text == "<invalid>" {
+			return in.newError("*fat2.TransactionBatch: invalid character (not a JSON document)")
+		}
 		if _, isDoc := data.Ext.(*jsonDoc); isDoc {
 			// a modelled JSON document: the real decoder runs (object-level document model)
 			return in.callFunction(fn, a, nil)
